@@ -7,6 +7,7 @@ CONSTANTS
   FixRecoverStale = FALSE
   FixShortHdr = TRUE
   FixTailOrder = TRUE
+  FreshTmp = TRUE
   KnownRebase = TRUE
 INVARIANTS NoCrashOK Crash1 Crash2
 CHECK_DEADLOCK FALSE
